@@ -20,4 +20,5 @@ MODULES = [
     "specs.b_values",
     "specs.b_elements",
     "specs.b_tables",
+    "specs.b_clone",
 ]
